@@ -32,11 +32,14 @@ pub struct ProgCfg {
     /// Allow divisions whose divisor is an arbitrary expression (may be zero).
     pub risky_division: bool,
     pub max_recursion_arg: usize,
+    /// Prefer binders (lambdas for function goals, groups otherwise) near the top of the program,
+    /// so that the program starts with several parameter / definition blocks (used by C18).
+    pub block_bias: bool,
 }
 
 impl Default for ProgCfg {
     fn default() -> Self {
-        ProgCfg { recursion: true, forward_aliases: false, implicit: true, obfuscate_16: 2, risky_division: true, max_recursion_arg: 12 }
+        ProgCfg { recursion: true, forward_aliases: false, implicit: true, obfuscate_16: 2, risky_division: true, max_recursion_arg: 12, block_bias: false }
     }
 }
 
@@ -51,6 +54,7 @@ pub struct ProgGen<'c, 'd> {
     counter: usize,
     used: BTreeSet<String>,
     elim_depth: usize,
+    pub top_fuel: usize,
 }
 
 const POOL: [&str; 16] = ["x", "y", "f", "g", "a", "b", "n", "m", "p", "q", "é", "λx", "名", "iff", "int2", "t_"];
@@ -75,7 +79,7 @@ pub fn boundary_literal(ch: &mut Ch) -> BigInt {
 
 impl<'c, 'd> ProgGen<'c, 'd> {
     pub fn new(ch: &'c mut Ch<'d>, cfg: ProgCfg) -> Self {
-        ProgGen { ch, cfg, names: Names::default(), nbe: Nbe::new(200_000), scope: vec![], env: None, features: BTreeSet::new(), counter: 0, used: BTreeSet::new(), elim_depth: 0 }
+        ProgGen { ch, cfg, names: Names::default(), nbe: Nbe::new(200_000), scope: vec![], env: None, features: BTreeSet::new(), counter: 0, used: BTreeSet::new(), elim_depth: 0, top_fuel: 0 }
     }
 
     /// A binder name that is used nowhere else in this program (so that flattening nested groups
@@ -146,6 +150,16 @@ impl<'c, 'd> ProgGen<'c, 'd> {
     }
 
     pub fn make(&mut self, goal: &Rc<V>, fuel: usize) -> Option<S> {
+        if self.cfg.block_bias && fuel >= 3 && fuel + 3 > self.top_fuel {
+            match (&**goal, self.ch.pick(8)) {
+                (V::Pi(im, dom, _), 0..=4) => {
+                    let (im, dom) = (*im, dom.clone());
+                    return self.gen_lambda(goal, im, &dom, fuel);
+                }
+                (_, 0..=5) => return self.gen_let(goal, fuel),
+                _ => {}
+            }
+        }
         // Generic wrappers, applicable to every goal.
         if fuel >= 2 {
             match self.ch.pick(14) {
@@ -432,10 +446,8 @@ impl<'c, 'd> ProgGen<'c, 'd> {
                 10 if self.cfg.forward_aliases => self.forward_alias_defs(),
                 _ => self.def_of_type(Rc::new(V::Int), fuel - 1).map(|d| vec![d]),
             };
-            let Some(made) = made else {
-                ok = false;
-                break;
-            };
+            // A definition that could not be generated is simply left out.
+            let Some(made) = made else { continue };
             // Register the new definitions: ids, K forms, frame, scope entries.
             // All definitions of one batch are added together (mutual recursion).
             let ids: Vec<Id> = made.iter().map(|(name, _, _)| self.names.fresh(name)).collect();
@@ -631,6 +643,7 @@ pub fn gen_program_at(ch: &mut Ch, cfg: ProgCfg, goal_kind: usize, goal_s: Optio
         }
     };
     let ty = g.quote_s(&goal)?;
+    g.top_fuel = fuel;
     let s = g.make(&goal, fuel)?.flatten();
     let text = sast::print_plain(&s);
     Some(Program { s, text, ty, features: g.features.clone() })
